@@ -1840,8 +1840,9 @@ fn read_residuals<R: BitRead, I: SignedInteger>(
         let partition_order = reader.read::<4, u32>()?;
         let partition_count = 1 << partition_order;
 
-        if block_size < partition_count {
-            // more partitions than samples in the block
+        if block_size % partition_count != 0 {
+            // the block cannot be divided evenly into that many partitions
+            // (this includes more partitions than samples in the block)
             return Err(Error::InvalidPartitionOrder);
         }
 
